@@ -5,7 +5,8 @@ import arrayprop, directed
 def run(tier):
     return arrayprop.standard_run(
         "C04", tier, profiles=["detect"],
-        directed_jobs=lambda s0: [(s0 + k, dict(nd=2, np=1, copies=2), "directed-touched-rotten", 0, directed.touched_then_rotten) for k in (1, 2)], nquick=24, nthorough=240, steps=(20, 30),
+        directed_jobs=lambda s0: [(s0 + k, dict(nd=2, np=1, copies=2), "directed-touched-rotten", 0, directed.touched_then_rotten) for k in (1, 2)] +
+                                 [(s0 + 3, dict(nd=2, np=2, copies=2), "directed-audit-two-blocks", 0, directed.audit_two_blocks)], nquick=24, nthorough=240, steps=(20, 30),
         rule="on synced arrays single or combined silent corruptions (bit, byte, whole block, zeroing; data blocks first/"
              "middle/last-short; parity blocks of every level) are followed by check -a, check and scrub full/new/bad; TLC "
              "compares the reported error:<pos>:<disk> / parity_error:<pos>:<level> sets, the bad marks and the exit class "
